@@ -201,21 +201,29 @@ impl PageTree {
         if depth == 0 {
             bail!("page tree depth exeeded");
         }
-        let mut pos = 0;
+        let mut pos: u32 = 0;
         for &kid in &self.kids {
             let node = resolve.get(kid)?;
             match *node {
                 PagesNode::Tree(ref tree) => {
-                    if (pos .. pos + tree.count).contains(&page_nr) {
+                    // /Count is taken from the file: the running position must not overflow
+                    let end = match pos.checked_add(tree.count) {
+                        Some(end) => end,
+                        None => bail!("page tree counts exceed the range of page numbers")
+                    };
+                    if (pos .. end).contains(&page_nr) {
                         return tree.page_limited(resolve, page_nr - pos, depth - 1);
                     }
-                    pos += tree.count;
+                    pos = end;
                 }
                 PagesNode::Leaf(ref _page) => {
                     if pos == page_nr {
                         return Ok(PageRc(node));
                     }
-                    pos += 1;
+                    pos = match pos.checked_add(1) {
+                        Some(next) => next,
+                        None => bail!("page tree counts exceed the range of page numbers")
+                    };
                 }
             }
         }
